@@ -42,6 +42,33 @@ Theorem c13_idempotent_with_aggregates : forall (I : interp) swap arities P pl f
   rows st2 = rows st1.
 Proof. intros I swap. exact (rerun_idempotent_agg I swap (eval_variant_spec_agg I swap)). Qed.
 
+(* ================= per-index state between runs =================
+   What a program value carries from one run() to the next is its rows AND its stored index fields.  Engine/IndexedEval.v
+   keeps one physical index per (relation, column set) as the generated code does; run() = update_indices (every index reset
+   and refilled from the rows) followed by the SCCs.  A second run() leaves the rows unchanged and all indices of a relation
+   in agreement; the stored indices after ANY run list exactly the rows (lock-step), whatever the previous run left in them.
+   Tied to the real index fields after `run(); push; run()` by gen/indexed_tie.py. *)
+From AV Require Engine.IndexedEval.
+From AV Require Engine.IndexedRefine.
+From AV Require Engine.IndexedLockstep.
+
+Theorem c13_indexed_rerun_idempotent : forall (I : interp) swap decls pl, IndexedEval.plan_idx_ok decls pl = true ->
+  forall arities P, arities_functional arities -> no_agg P = true -> validate arities P pl = true ->
+  forall fuel fuel' F0 c1 c2, wf_facts arities F0 = true -> NoDup F0 -> (forall f, In f F0 -> IndexedEval.fact_idx_ok decls f = true) ->
+  IndexedEval.run_plan_idx I swap fuel pl (IndexedEval.init_istate decls F0) = Some c1 ->
+  wf_facts arities (IndexedEval.irows c1) = true -> (forall f, In f (IndexedEval.irows c1) -> IndexedEval.fact_idx_ok decls f = true) ->
+  IndexedEval.run_plan_idx I swap fuel' pl c1 = Some c2 ->
+  IndexedEval.irows c2 = IndexedEval.irows c1 /\ IndexedRefine.indices_agree (IndexedEval.istored c2).
+Proof. exact IndexedRefine.indexed_rerun_idempotent. Qed.
+
+Theorem c13_stored_indices_rebuilt_by_every_run : forall (I : interp) swap decls fuel pl c c', IndexedEval.plan_idx_ok decls pl = true ->
+  IndexedSim.pshape (IndexedEval.istored c) = decls -> (forall f, In f (IndexedEval.irows c) -> IndexedEval.fact_idx_ok decls f = true) ->
+  IndexedEval.run_plan_idx I swap fuel pl c = Some c' ->
+  IndexedRefine.indices_agree (IndexedEval.istored c') /\ IndexedSim.pshape (IndexedEval.istored c') = decls.
+Proof. exact IndexedLockstep.indexed_run_indices_agree_any_input. Qed.
+
+Print Assumptions c13_indexed_rerun_idempotent. Print Assumptions c13_stored_indices_rebuilt_by_every_run.
+
 (* Lattice relations: "equal lattice values" and monotone re-runs are the theorems c13_lattice_* at the end of this
    file, about C03's lattice engine model (programs mixing relations and lattices, no aggregation / negation).
    PARTIAL (what is still not a theorem here): programs that combine lattices WITH aggregation / negation, BYODS
